@@ -128,6 +128,7 @@ func gcd(a, b int) int {
 // one observed operation
 type rrOp struct {
 	ownMarks int    // how often the caller's error handler answered this request
+	listened int    // how often the request-rewrite listener was told about this request
 	kind     string // upsert, remove, next, serve, servers, weight
 	key      string
 	hasW     bool
@@ -165,6 +166,7 @@ type rrWorld struct {
 	viaRB         bool
 	sticky        bool
 	ownErrHandler bool
+	listener      bool
 	model         pool
 	ops           []*rrOp
 	mutations     int
@@ -240,6 +242,22 @@ func newRRWorld(r *simkit.Run, viaRB, sticky, fine bool) *rrWorld {
 	if w.ownErrHandler {
 		opts = append(opts, roundrobin.ErrorHandler(ownHandler))
 	}
+	// by draw a request-rewrite listener is configured: it is told about every forwarded request (once), and what
+	// it does to the outgoing request's URL must not reach the pool any more than what the handler does
+	w.listener = rapid.IntRange(0, 2).Draw(r.T, "rewrite-listener") == 0
+	scribble := rapid.Bool().Draw(r.T, "listener-scribbles")
+	listen := func(oldReq, newReq *http.Request) {
+		if op, ok := oldReq.Context().Value(ctxKey{}).(*rrOp); ok {
+			op.listened++
+		}
+		if scribble && newReq.URL != nil {
+			newReq.URL.RawQuery = "listener=1"
+			newReq.URL.Fragment = "listener"
+		}
+	}
+	if w.listener && !viaRB {
+		opts = append(opts, roundrobin.RoundRobinRequestRewriteListener(listen))
+	}
 	if sticky && !viaRB {
 		opts = append(opts, roundrobin.EnableStickySession(roundrobin.NewStickySession("aff")))
 	}
@@ -261,6 +279,9 @@ func newRRWorld(r *simkit.Run, viaRB, sticky, fine bool) *rrWorld {
 		}
 		if w.ownErrHandler {
 			ropts = append(ropts, roundrobin.RebalancerErrorHandler(ownHandler))
+		}
+		if w.listener {
+			ropts = append(ropts, roundrobin.RebalancerRequestRewriteListener(listen))
 		}
 		if slow {
 			ropts = append(ropts, roundrobin.RebalancerLogger(simkit.SlowLogger{}), roundrobin.RebalancerDebug(rapid.Bool().Draw(r.T, "debug")))
